@@ -222,6 +222,11 @@ impl Scenario for PaseStorm {
             script: vec![
                 CtlStep::Sleep { ms: 400_000 },
                 CtlStep::PaseAttempt { dev: 0, passcode: GOOD },
+                // A table full of idle (unsecured) sessions which the hostile traffic left behind
+                // is answered Busy once - while the device evicts an idle session - and the
+                // retry gets through ("answers busy or evicts an idle session")
+                CtlStep::Sleep { ms: 1_000 },
+                CtlStep::PaseAttempt { dev: 0, passcode: GOOD },
                 CtlStep::Sleep { ms: 130_000 },
             ],
             continue_on_error: true,
